@@ -2450,4 +2450,54 @@ theorem mergeAll_none_all_ok (rx : String → String → Bool) (op : Nat) (w : W
     · cases h
 
 
+
+
+/-- a Selector declaration specifies `names` exactly when it specifies `objects` -/
+theorem construct_names_iff_objects (rx : String → String → Bool) (op name : Nat) (d : Decl) (own : Param)
+    (hT : d.ptype = .selector) (h : construct rx op name d = .ok own) :
+    (own.slots .names).isSome = (d.args .objects).isSome ∧ (own.slots .objects).isSome = (d.args .objects).isSome := by
+  have hraw : ∀ ad, ((selectorRaw op name d.args d.instantiate ad).slots .names).isSome = (d.args .objects).isSome ∧
+      ((selectorRaw op name d.args d.instantiate ad).slots .objects).isSome = (d.args .objects).isSome := by
+    intro ad
+    simp only [selectorRaw, Slots.set, reduceCtorEq, if_false, if_true]
+    constructor <;> (split <;> simp_all)
+  unfold construct at h
+  simp only [hT] at h
+  unfold constructSelector at h
+  cases had : selectorAutodefault d.args with
+  | error e => simp [had] at h
+  | ok ad =>
+    simp only [had] at h
+    cases hv : unboundView .selector op name (selectorRaw op name d.args d.instantiate ad).slots with
+    | error e => simp [hv] at h
+    | ok view =>
+      simp only [hv] at h
+      cases hdv : view .default with
+      | none => simp [hdv] at h
+      | some dv =>
+        cases hcv : view .checkOnSet with
+        | none => simp [hdv, hcv] at h
+        | some cos =>
+          simp only [hdv, hcv] at h
+          cases hval : (if dv.v.isNone = true then (Except.ok () : Except ErrKind Unit)
+              else validateSelector (cfgOf view) dv.v) with
+          | error e => simp [hval] at h
+          | ok u =>
+            simp only [hval] at h
+            split at h
+            · cases he : ensureInObjects (selectorRaw op name d.args d.instantiate ad).slots dv.v with
+              | error e => simp [he] at h
+              | ok s' =>
+                simp only [he] at h
+                cases h
+                refine ⟨?_, ?_⟩
+                · show (s' .names).isSome = _
+                  rw [ensureInObjects_other he (by decide)]; exact (hraw ad).1
+                · show (s' .objects).isSome = _
+                  rw [← isSome_cfgOf, ensureInObjects_cfg he]
+                  simp only [if_true, Option.isSome_map, isSome_cfgOf]; exact (hraw ad).2
+            · cases h
+              exact hraw ad
+
+
 end ParamVerif.Inherit
